@@ -8,6 +8,8 @@ def generate(G):
         ("reshape_view", 8, "quick", "reshape view sharing storage; ops on view and original; backward through the view; sum(0) clone"),
         ("optimizer_update", 6, "quick", "forward, backward, gradient fetched, GradientDescent::update: older handles intact, new value = old - lr*g"),
         ("drop_others", 6, "quick", "clone dropped, derived results dropped (real drops) before and after a pass"),
+        ("matmul_addend", 8, "quick", "matmul with an additive term of exactly the product's shape (single owner), and the dot-product form with a [1] term: the term is unchanged"),
+        ("activation_alias", 8, "quick", "activation::relu() applied to a clone of an array that other handles (a view, a clone) still share; untracked and tracked"),
         ("accumulate_shared", 6, "quick", "y = a + a*k: first adjoint of a through the addition (shared buffer), second a fresh array; seed and stored gradients re-checked; second pass"),
     ]:
         G.ob("c08_" + name, "C08", name, "c08::%s(s)" % name, unwind=unwind, tier=tier, skeleton={"history": what},
